@@ -29,6 +29,13 @@ CVRP_UPDATE_STALE = '''        td.set("action_mask", self.get_action_mask(td))
 
 CORPUS = [
     # ---------------------------------------------------------------- C01
+    V("C01", "svrp-last-tech-flipped", "rl4co/envs/routing/svrp/env.py", '(td["current_tech"] == td["techs"].size(-2) - 1)', '(td["current_tech"] != td["techs"].size(-2) - 1)', 'C01.b'),
+    V("C01", "svrp-last-tech-off-by-two", "rl4co/envs/routing/svrp/env.py", '(td["current_tech"] == td["techs"].size(-2) - 1)', '(td["current_tech"] == td["techs"].size(-2) + 1)', 'C01.s'),
+    V("C01", "svrp-last-tech-wrong-axis", "rl4co/envs/routing/svrp/env.py", '(td["current_tech"] == td["techs"].size(-2) - 1)', '(td["current_tech"] == td["techs"].size(-1) - 1)', 'C01.s'),
+    V("C01", "svrp-last-tech-and-at-depot", "rl4co/envs/routing/svrp/env.py", '(td["current_node"] == 0) | (td["current_tech"] == td["techs"].size(-2) - 1)', '(td["current_node"] == 0) & (td["current_tech"] == td["techs"].size(-2) - 1)', 'C01.s'),
+    V("C01", "eq-svrp-last-tech-yoda", "rl4co/envs/routing/svrp/env.py", '(td["current_tech"] == td["techs"].size(-2) - 1)', '(td["techs"].shape[1] - 1 == td["current_tech"])', None),
+    V("C01", "eq-svrp-last-tech-moved-one", "rl4co/envs/routing/svrp/env.py", '(td["current_tech"] == td["techs"].size(-2) - 1)', '(td["current_tech"] + 1 == td["techs"].size(-2))', None),
+    V("C01", "eq-cvrp-depot-pruning-flipped-is-c05", "rl4co/envs/routing/cvrp/env.py", 'mask_depot = (td["current_node"] == 0) & (', 'mask_depot = (td["current_node"] != 0) & (', None),
     V("C01", "mtvrp-linehaul-missing-or-capacity", "rl4co/envs/routing/mtvrp/env.py", '            linehauls_missing\n            & ~exceeds_cap_linehaul', '            (linehauls_missing\n            | ~exceeds_cap_linehaul)', 'C01.b'),
     V("C01", "mtvrp-linehaul-or-not-carrying", "rl4co/envs/routing/mtvrp/env.py", '            linehauls_missing\n            & ~exceeds_cap_linehaul\n            & ~is_carrying_backhaul', '            (linehauls_missing\n            & ~exceeds_cap_linehaul\n            | ~is_carrying_backhaul)', 'C01.b'),
     V("C01", "mtvrp-alternatives-conjoined", "rl4co/envs/routing/mtvrp/env.py", ') | (~exceeds_cap_backhaul & (td["demand_backhaul"] > 0))', ') & (~exceeds_cap_backhaul & (td["demand_backhaul"] > 0))', 'C01.b'),
@@ -66,6 +73,11 @@ def for_prop(prop):
 
 CORPUS += [
     # ---------------------------------------------------------------- C05
+    V("C05", "cvrp-depot-pruned-away-from-depot", "rl4co/envs/routing/cvrp/env.py", 'mask_depot = (td["current_node"] == 0) & (', 'mask_depot = (td["current_node"] != 0) & (', 'C05.c'),
+    V("C05", "sdvrp-depot-pruned-away-from-depot", "rl4co/envs/routing/sdvrp/env.py", 'mask_depot = (td["current_node"] == 0).squeeze(-1) & (', 'mask_depot = (td["current_node"] != 0).squeeze(-1) & (', 'C05.c'),
+    V("C05", "mtvrp-depot-pruned-away-from-depot", "rl4co/envs/routing/mtvrp/env.py", 'can_visit[:, 0] = ~((curr_node == 0) & (can_visit[:, 1:].sum(-1) > 0))', 'can_visit[:, 0] = ~((curr_node != 0) & (can_visit[:, 1:].sum(-1) > 0))', 'C05.c'),
+    V("C05", "svrp-depot-pruned-away-from-depot", "rl4co/envs/routing/svrp/env.py", '(td["current_node"] == 0) | (td["current_tech"]', '(td["current_node"] != 0) | (td["current_tech"]', 'C05.c'),
+    V("C05", "eq-cvrp-depot-pruning-yoda", "rl4co/envs/routing/cvrp/env.py", 'mask_depot = (td["current_node"] == 0) & (', 'mask_depot = (0 == td["current_node"]) & (', None),
     V("C05", "cvrp-cap-ge", R + "cvrp/env.py", 'td["demand"] + td["used_capacity"] > td["vehicle_capacity"]', 'td["demand"] + td["used_capacity"] >= td["vehicle_capacity"]', "C05.a"),
     V("C05", "mtvrp-tw-strict-again", R + "mtvrp/env.py", "can_reach_customer = arrival_time <= late_tw", "can_reach_customer = arrival_time < late_tw", "C05.a"),
     V("C05", "cvrptw-tw-strict", R + "cvrptw/env.py", 'td["current_time"] + dist <= td["time_windows"][..., 1]', 'td["current_time"] + dist < td["time_windows"][..., 1]', "C05.a"),
